@@ -52,18 +52,92 @@ def _exec_one(mod, seed, tier, twice=False):
     return out
 
 
+def _run_isolated(mod, seed, tier, twice, timeout_s):
+    """Execute one run in a forked child of this (warm) worker, so that every run starts
+    from the same post-warm-up module state (a replay starts from that state too) and a run
+    that kills its interpreter takes nobody else with it."""
+    import pickle
+
+    r, w = os.pipe()
+    pid = os.fork()
+    if pid == 0:  # child
+        try:
+            os.close(r)
+            faulthandler.dump_traceback_later(timeout_s, exit=True)
+            try:
+                o = _exec_one(mod, seed, tier, twice=False)
+            except Exception as e:  # noqa: BLE001
+                o = {"seed": seed, "harness_error": f"{type(e).__name__}: {e}",
+                     "trace": traceback.format_exc()[-2000:]}
+            data = pickle.dumps(o, protocol=pickle.HIGHEST_PROTOCOL)
+            with os.fdopen(w, "wb") as fh:
+                fh.write(data)
+        finally:
+            os._exit(0)
+    os.close(w)
+    chunks = []
+    with os.fdopen(r, "rb") as fh:
+        while True:
+            b = fh.read(1 << 20)
+            if not b:
+                break
+            chunks.append(b)
+    _, status = os.waitpid(pid, 0)
+    data = b"".join(chunks)
+    if not data:
+        return {"seed": seed, "aborted": True, "wait_status": status}
+    return pickle.loads(data)
+
+
+def _iso_execute(mod, scn, timeout_s=180):
+    """mod.execute(scn) in a forked child (same isolation as a batch run)."""
+    import pickle
+
+    r, w = os.pipe()
+    pid = os.fork()
+    if pid == 0:
+        try:
+            os.close(r)
+            faulthandler.dump_traceback_later(timeout_s, exit=True)
+            try:
+                res = mod.execute(scn)
+                o = {"verdicts": res["verdicts"], "digest": res["digest"]}
+            except Exception as e:  # noqa: BLE001
+                o = {"verdicts": [], "digest": f"ERR {type(e).__name__}: {e}", "error": True}
+            with os.fdopen(w, "wb") as fh:
+                fh.write(pickle.dumps(_jsonable(o)))
+        finally:
+            os._exit(0)
+    os.close(w)
+    with os.fdopen(r, "rb") as fh:
+        data = fh.read()
+    os.waitpid(pid, 0)
+    if not data:
+        return {"verdicts": [], "digest": "ABORTED", "error": True}
+    return pickle.loads(data)
+
+
 def _worker_chunk(args):
     prop, tier, base, idxs, twice_upto, per_run_timeout, marker_dir = args
     mod = _MOD or _load(prop)
     outs = []
     marker = os.path.join(marker_dir, f"w{os.getpid()}") if marker_dir else None
+    isolate = os.environ.get("VERIF_FORK_PER_RUN", "1") != "0"
     for i in idxs:
         if marker:
             with open(marker, "w") as fh:
                 fh.write(str(i))
+        seed = run_seed(base, prop, i)
+        if isolate:
+            o = _run_isolated(mod, seed, tier, False, per_run_timeout)
+            if i < twice_upto and "digest" in o:
+                o2 = _run_isolated(mod, seed, tier, False, per_run_timeout)
+                o["digest2"] = o2.get("digest", "ABORTED")
+            o["i"] = i
+            outs.append(o)
+            continue
         faulthandler.dump_traceback_later(per_run_timeout, exit=True)
         try:
-            seed = run_seed(base, prop, i)
             try:
                 o = _exec_one(mod, seed, tier, twice=i < twice_upto)
             except Exception as e:  # noqa: BLE001
@@ -141,6 +215,8 @@ def replay(prop, path, quiet=False):
         doc = json.load(f)
     scn = doc["scenario"] if "scenario" in doc else doc
     mod = _load(scn.get("property", prop))
+    if hasattr(mod, "warmup"):
+        mod.warmup()  # runs of a batch start from the post-warm-up module state; so does a replay
     r1 = mod.execute(scn)
     r2 = mod.execute(scn)
     keys = sorted({verdict_key(v) for v in r1["verdicts"]})
@@ -304,6 +380,12 @@ def main(argv=None):
     samples = []
     for i in sorted(results):
         o = results[i]
+        if o.get("aborted"):
+            aborted.append(i)
+            harness_errors.append(
+                f"run {i} seed {o['seed']} killed its interpreter (fatal error or "
+                f"{per_run_timeout}s watchdog; wait status {o.get('wait_status')}); not judged")
+            continue
         if "harness_error" in o:
             harness_errors.append(f"run {i} seed {o['seed']}: {o['harness_error']}\n{o.get('trace','')}")
             continue
@@ -323,7 +405,7 @@ def main(argv=None):
         if "digest2" in o and o["digest2"] != o["digest"]:
             harness_errors.append(f"determinism: run {i} seed {o['seed']} differs when "
                                   f"executed twice in one process")
-    n_done = len([o for o in results.values() if "harness_error" not in o])
+    n_done = len([o for o in results.values() if "harness_error" not in o and not o.get("aborted")])
 
     # ---- fresh interpreter comparison
     selftest = {"same_process_twice": n_self if not harness_errors else "see errors",
@@ -395,7 +477,7 @@ def main(argv=None):
     wall = time.time() - t_start
     # ---- samples for the evidence
     for i in sorted(results)[:3]:
-        if "harness_error" in results[i]:
+        if "harness_error" in results[i] or results[i].get("aborted"):
             continue
         scn = mod.generate(results[i]["seed"], tier)
         samples.append({"run": i, "seed": results[i]["seed"], "digest": results[i]["digest"],
@@ -464,7 +546,7 @@ def _minimise_and_write(mod, prop, scn, verdict, seed, known):
     key = verdict_key(verdict)
 
     def still_fails(c):
-        r = mod.execute(c)
+        r = _iso_execute(mod, c)
         for v in r["verdicts"]:
             if verdict_key(v) == key and findings.match(v, c, known) is None:
                 return True
@@ -478,8 +560,8 @@ def _minimise_and_write(mod, prop, scn, verdict, seed, known):
                                    budget=getattr(mod, "SHRINK_BUDGET", 200))
         except Exception:  # noqa: BLE001
             small = scn
-    r = mod.execute(small)
-    r2 = mod.execute(small)
+    r = _iso_execute(mod, small)
+    r2 = _iso_execute(mod, small)
     keys = sorted({verdict_key(v) for v in r["verdicts"]})
     doc = {
         "property": prop, "seed": seed, "minimisation_executions": used,
